@@ -539,7 +539,9 @@ class C45(Check):
         # ---- known findings (exclusions by construction, only while the tag is active)
         cplx_other = (not both_mp) and (ky if kx in mpk else kx) in ("exact", "double") and other[1] != 0
         mpfr_side = kx if kx in mpk else ky
-        if self.tag_active(TAG_CSWAP) and cplx_other and mpfr_side == "mpfr" and base in ("sub", "div", "pow"):
+        okind = ky if kx in mpk else kx
+        if self.tag_active(TAG_CSWAP) and cplx_other and mpfr_side == "mpfr" \
+                and (base in ("sub", "div") or (base == "pow" and okind == "exact")):
             self.skip("known:" + TAG_CSWAP)
             return
         if self.tag_active(TAG_RPOWD) and base == "pow" and kx == "double" and x[1] == 0 and ky == "mpfr" \
